@@ -4,6 +4,16 @@ import json, os, sys
 ROOT = os.path.dirname(os.path.dirname(os.path.abspath(__file__)))
 E1 = 'E1 CrossHair 0.0.110 + z3 5.1: per-path symbolic execution of the real boltons functions'
 CHECKS = {
+    'C01': dict(
+        technique='bounded symbolic execution (CrossHair/z3) of the real OrderedMultiDict methods against a pair-list model: '
+                  'arbitrary reachable pre-state + one arbitrary operation; key equality pattern and (sym mode) values are solver variables',
+        text='For each of 23 operations (with list/tuple/one-shot-iterator/mapping/OMD argument forms) every feasible key-equality '
+             'pattern of <=3 pre-state pairs and <=2 argument pairs is explored to exhaustion; after the operation every read of the '
+             'statement (items/keys/values multi on/off, get/getlist/[]/in/len/iter/reversed/todict/counts/==/!=; inverted/sorted/'
+             'sortedvalues/repr in a separate obligation) is compared with the model. A second family keeps the values as unbounded '
+             'symbolic ints so that value flow is decided by z3. Bounded model checking, not a proof.',
+        note='Trusted: CrossHair path exhaustion, z3, the pair-list reference model. Outside: >3 (quick) / >4 (thorough) pre-state pairs, >2 operations, FastIterOrderedMultiDict.',
+        ref='C01'),
     'C17': dict(
         technique='bounded symbolic execution (CrossHair/z3) of the real OneToOne/ManyToMany/FrozenDict methods: '
                   'one arbitrary operation from an arbitrary reachable pre-state, equality pattern of keys/values decided by the solver',
@@ -14,6 +24,8 @@ CHECKS = {
         ref='C17'),
 }
 NOT_APPLICABLE = []
+ALL = ['C%02d' % i for i in range(1, 21)]
+PENDING_REASON = 'check not built yet in this round (design in DESIGN.md section 3); not claimed until its harness lands'
 
 def main():
     checks = []
@@ -43,7 +55,7 @@ def main():
         'checks': checks,
         'notes': 'Exit codes: 0 held within bounds (KNOWN-FINDING lines allowed), 1 reproduced violation, 3 harness error. '
                  'known_findings.json lists recorded and fixed defects.',
-        'not_applicable': NOT_APPLICABLE,
+        'not_applicable': NOT_APPLICABLE + [{'property_id': p, 'reason': PENDING_REASON} for p in ALL if p not in CHECKS],
     }
     json.dump(m, open(os.path.join(ROOT, 'MANIFEST.json'), 'w'), indent=1)
     try:
